@@ -293,47 +293,7 @@ func runC03(c *Ctx) {
 	}
 
 	// ---------- C03.d ----------
-	c.clause("C03.d", "T9", "each WriteTOCAndFooter returns digest.FromBytes of the TOC JSON bytes it writes", 3)
-	nW := 0
-	for _, f := range c.liveFuncs() {
-		if f.Name() != "WriteTOCAndFooter" || f.Signature.Recv() == nil {
-			continue
-		}
-		nW++
-		ms := callsIn(f, idIs("encoding/json.MarshalIndent", "encoding/json.Marshal"))
-		if len(ms) != 1 {
-			c.bad(c.fnKey(f)+":marshal", f.Pos(), "TOC is not marshalled exactly once")
-			continue
-		}
-		js := resultN(ms[0], 0)
-		// the digest returned
-		retOK := false
-		for _, r := range realReturns(f) {
-			if !returnsNilErrorOrCall(r, nil) && !returnsLastCallErr(r) {
-				continue
-			}
-			for _, v := range retVals(r, 0) {
-				if call, ok := stripConv(v).(*ssa.Call); ok && calleeID(call) == "github.com/opencontainers/go-digest.FromBytes" && sameValue(call.Call.Args[0], js) {
-					retOK = true
-				}
-			}
-		}
-		// the bytes written: a Write(js) into a writer
-		wrOK := false
-		for _, ci := range callsIn(f, func(id string, ci ssa.CallInstruction) bool {
-			o := calleeObj(ci)
-			return o != nil && o.Name() == "Write"
-		}) {
-			args := ci.Common().Args
-			if sameValue(args[len(args)-1], js) {
-				wrOK = true
-			}
-		}
-		c.verdict(c.fnKey(f)+":digest-of-written-toc", f.Pos(), retOK && wrOK, "returned digest = FromBytes(tocJSON) and tocJSON is what is written", "the TOC digest reported by the builder is not the digest of the TOC bytes it wrote")
-	}
-	if nW < 3 {
-		c.bad("WriteTOCAndFooter-implementations", token.NoPos, fmt.Sprintf("%d implementations found (3 on the pinned tree)", nW))
-	}
+	clauseTOCDigestOfWrittenBytes(c, "C03.d")
 
 	// ---------- C03.e ----------
 	c.clause("C03.e", "T5", "footer sizes: FooterSize() of each compression equals the size its footer constructor asserts/allocates and the length its parser demands", 3)
@@ -1036,4 +996,51 @@ func runC03extra(c *Ctx, at *ssa.Function) {
 		}
 		c.verdict(c.fnKey(f)+":toc-buffer", f.Pos(), dst != nil && fresh && stored, "TOC compressed into a buffer of this call, which becomes gc.buf", "the external TOC buffer is reused across blobs without being emptied, or the written buffer is not the one WriteTOCTo serves: a second blob's TOC starts with the first blob's")
 	}
+}
+
+// clauseTOCDigestOfWrittenBytes: shared by C03 and C19 (the TOC digest annotation a converter emits is the digest the
+// compressor returns).
+func clauseTOCDigestOfWrittenBytes(c *Ctx, id string) {
+	c.clause(id, "T9", "each WriteTOCAndFooter returns digest.FromBytes of the TOC JSON bytes it writes", 3)
+	nW := 0
+	for _, f := range c.liveFuncs() {
+		if f.Name() != "WriteTOCAndFooter" || f.Signature.Recv() == nil {
+			continue
+		}
+		nW++
+		ms := callsIn(f, idIs("encoding/json.MarshalIndent", "encoding/json.Marshal"))
+		if len(ms) != 1 {
+			c.bad(c.fnKey(f)+":marshal", f.Pos(), "TOC is not marshalled exactly once")
+			continue
+		}
+		js := resultN(ms[0], 0)
+		// the digest returned
+		retOK := false
+		for _, r := range realReturns(f) {
+			if !returnsNilErrorOrCall(r, nil) && !returnsLastCallErr(r) {
+				continue
+			}
+			for _, v := range retVals(r, 0) {
+				if call, ok := stripConv(v).(*ssa.Call); ok && calleeID(call) == "github.com/opencontainers/go-digest.FromBytes" && sameValue(call.Call.Args[0], js) {
+					retOK = true
+				}
+			}
+		}
+		// the bytes written: a Write(js) into a writer
+		wrOK := false
+		for _, ci := range callsIn(f, func(id string, ci ssa.CallInstruction) bool {
+			o := calleeObj(ci)
+			return o != nil && o.Name() == "Write"
+		}) {
+			args := ci.Common().Args
+			if sameValue(args[len(args)-1], js) {
+				wrOK = true
+			}
+		}
+		c.verdict(c.fnKey(f)+":digest-of-written-toc", f.Pos(), retOK && wrOK, "returned digest = FromBytes(tocJSON) and tocJSON is what is written", "the TOC digest reported by the builder is not the digest of the TOC bytes it wrote")
+	}
+	if nW < 3 {
+		c.bad("WriteTOCAndFooter-implementations", token.NoPos, fmt.Sprintf("%d implementations found (3 on the pinned tree)", nW))
+	}
+
 }
